@@ -8,7 +8,10 @@ Go                                             ↦ model
   `go func(){ clock.Sleep(ttl); clearKey }()`  ↦ one `Sleeper (due, key)` in `pending`; it runs as a SEPARATE event
                                                  (`fire`) at any time ≥ `due` and deletes whatever is stored
                                                  under the key at that moment
-  clock.Now().UnixNano()                       ↦ `now : Int` (ns)
+  clock.Now().UnixNano()                       ↦ `now : Int` (ns) — the WALL clock: expiry stamps and the `now > expiry` tests
+  clock.Sleep / After                          ↦ `mono : Int` (ns) — ELAPSED time: sleepers are due on this timeline.  The two
+                                                 advance together (`skip`, `adv`); `wstep d` moves only the wall clock (NTP
+                                                 step, VM resume: `d` may be negative)
 
 Mirrored on purpose:
   * `valueExpired`:  `now > expirationTimeNano`  — STRICT, an entry is still served at `now = expiry`;
@@ -33,6 +36,7 @@ deriving Repr, DecidableEq
 
 structure Cache (κ ν : Type) where
   now     : Int
+  mono    : Int
   entries : List (κ × Entry ν)
   tracked : Int
   pending : List (Sleeper κ)     -- sorted by due time, ties in registration order (detclock.Manual order)
@@ -40,7 +44,7 @@ structure Cache (κ ν : Type) where
   max     : Int
 
 def Cache.init {κ ν : Type} (t0 : Int) (sizeOn : Bool) (max : Int) : Cache κ ν :=
-  { now := t0, entries := [], tracked := 0, pending := [], sizeOn := sizeOn, max := max }
+  { now := t0, mono := 0, entries := [], tracked := 0, pending := [], sizeOn := sizeOn, max := max }
 
 section
 variable {κ ν α : Type} [DecidableEq κ]
@@ -99,7 +103,7 @@ def set (c : Cache κ ν) (k : κ) (v : ν) (ttl : Int) (sz : Nat) : Cache κ ν
     let c1 : Cache κ ν :=
       { c with entries := (k, { val := v, expiry := c.now + ttl, size := sz }) :: erase k c.entries,
                tracked := if c.sizeOn then c.tracked + (sz : Nat) else c.tracked }
-    if ttl > 0 then ({ c1 with pending := insertSleeper { due := c.now + ttl, key := k } c1.pending }, .ok)
+    if ttl > 0 then ({ c1 with pending := insertSleeper { due := c.mono + ttl, key := k } c1.pending }, .ok)
     else (clearKey c1 k, .ok)
 
 inductive FireRes where
@@ -113,22 +117,27 @@ def fire (c : Cache κ ν) (i : Nat) : Cache κ ν × FireRes :=
   match c.pending[i]? with
   | none => (c, .absent)
   | some s =>
-    if s.due ≤ c.now then ({ clearKey c s.key with pending := c.pending.eraseIdx i }, .fired)
+    if s.due ≤ c.mono then ({ clearKey c s.key with pending := c.pending.eraseIdx i }, .fired)
     else (c, .notDue)
 
 def clearAll (c : Cache κ ν) : List (Sleeper κ) → Cache κ ν
   | [] => c
   | s :: rest => clearAll (clearKey c s.key) rest
 
-/-- `d` ns pass and every sleeper that becomes due runs, earliest first (timers on time). -/
+/-- `d` ns pass and every sleeper that becomes due runs (timers on time).  The mock fires them earliest first;
+    the final state does not depend on the order. -/
 def adv (c : Cache κ ν) (d : Nat) : Cache κ ν × Nat :=
-  let target := c.now + (d : Nat)
-  let dueNow := c.pending.takeWhile (fun s => decide (s.due ≤ target))
-  ({ clearAll c dueNow with pending := c.pending.dropWhile (fun s => decide (s.due ≤ target)), now := target },
+  let target := c.mono + (d : Nat)
+  let dueNow := c.pending.filter (fun s => decide (s.due ≤ target))
+  ({ clearAll c dueNow with pending := c.pending.filter (fun s => !decide (s.due ≤ target)),
+                            now := c.now + (d : Nat), mono := target },
    dueNow.length)
 
 /-- `d` ns pass and NO sleeper is scheduled (they stay pending, possibly overdue). -/
-def skip (c : Cache κ ν) (d : Nat) : Cache κ ν := { c with now := c.now + (d : Nat) }
+def skip (c : Cache κ ν) (d : Nat) : Cache κ ν := { c with now := c.now + (d : Nat), mono := c.mono + (d : Nat) }
+
+/-- the wall clock is stepped by `d` (possibly backwards); no time elapses -/
+def wstep (c : Cache κ ν) (d : Int) : Cache κ ν := { c with now := c.now + d }
 
 /-- Operations of a history. -/
 inductive Ev (κ ν : Type) where
@@ -139,6 +148,7 @@ inductive Ev (κ ν : Type) where
   | fire (i : Nat)
   | skip (d : Nat)
   | adv (d : Nat)
+  | wstep (d : Int)
   | probe
 deriving Repr
 
@@ -160,18 +170,20 @@ def step (c : Cache κ ν) : Ev κ ν → Cache κ ν × Out ν
   | .fire i => ((fire c i).1, .fired (fire c i).2)
   | .skip d => (skip c d, .unit)
   | .adv d => ((adv c d).1, .advd (adv c d).2)
+  | .wstep d => (wstep c d, .unit)
   | .probe => (c, .probed c.tracked (heldSize c.entries) c.entries.length c.pending.length)
 
 /-- One line of the observable history: instant of the call, the call, its answer. -/
 structure Rec (κ ν : Type) where
-  t   : Int
+  t   : Int      -- wall clock at the call
+  m   : Int      -- elapsed time at the call
   ev  : Ev κ ν
   out : Out ν
 
 /-- Run a history; records oldest first. -/
 def run (c : Cache κ ν) : List (Ev κ ν) → List (Rec κ ν)
   | [] => []
-  | ev :: evs => { t := c.now, ev := ev, out := (step c ev).2 } :: run (step c ev).1 evs
+  | ev :: evs => { t := c.now, m := c.mono, ev := ev, out := (step c ev).2 } :: run (step c ev).1 evs
 
 /-- State after a history. -/
 def final (c : Cache κ ν) : List (Ev κ ν) → Cache κ ν
